@@ -846,8 +846,9 @@ def install(mon, reach):
     reach.watch(C.Circuit.free_symbols, "Circuit.free_symbols")
     reach.watch(getattr(G.CustomGateMatrixFactory, "__call__", None), "CustomGateMatrixFactory.__call__")
 
-    mon.hook_func(O, "sub_symbols", post=_post_sub_symbols, name="sub_symbols")
-    mon.hook_func(O, "get_free_symbols", post=_post_get_free_symbols, name="get_free_symbols")
+    # helpers of the private module _operations, exported by no package: optional (a tree may have moved them)
+    mon.hook_func(O, "sub_symbols", post=_post_sub_symbols, name="sub_symbols", optional=True)
+    mon.hook_func(O, "get_free_symbols", post=_post_get_free_symbols, name="get_free_symbols", optional=True)
     mon.hook_method(G.CustomGateMatrixFactory, "__call__", post=_post_custom_factory, name="custom-factory")
     for cls in (G.MatrixFactoryGate, G.ControlledGate, G.Dagger, G.Power, G.Exponential):
         mon.hook_method(cls, "bind", post=_post_gate_bind(cls.__name__), name=f"{cls.__name__}.bind")
@@ -1291,9 +1292,40 @@ def _map_variant(rng, m):
     return d
 
 
+def _direct_helpers(obj, m):
+    """the substitution and free-symbol helpers are also asked DIRECTLY about the object's parameters and the map
+    (the hooks judge): whether bind() reaches them through this module, another one or not at all is the library's
+    business, what they answer when called is not"""
+    from orquestra.quantum.circuits import _operations as OPS
+
+    sub, free = getattr(OPS, "sub_symbols", None), getattr(OPS, "get_free_symbols", None)
+    try:
+        if isinstance(obj, _G.GateOperation) or hasattr(obj, "qubit_indices"):
+            plist = [tuple(_op_params(obj))]
+        elif hasattr(obj, "operations"):
+            plist = [tuple(_op_params(op)) for op in obj.operations[:4]]
+        else:
+            plist = [tuple(_chain(obj)[1].params)]
+    except Exception:
+        return
+    for params in plist:
+        if free is not None:
+            try:
+                free(params)
+            except Exception:
+                pass  # recorded by the hook
+        if sub is not None:
+            for p in params[:3]:
+                try:
+                    sub(p, m)
+                except Exception:
+                    pass
+
+
 def _bind(obj, m, expect_refusal=False):
     """obj.bind(m); the hooks judge.  Returns the result or None when the library raised."""
     ctx = _MODE["ctx"]
+    _direct_helpers(obj, m)
     passed = m
     if ctx is not None and ctx.rng.random() < 0.4:  # numtypes: the map handed over as another kind of dict
         passed = _map_variant(ctx.rng, m)
